@@ -507,6 +507,55 @@ def v15(rep):
     rep.floor("stores of a literal into a conjunction", n, 8)
 
 
+def v16(rep, rule="V16"):
+    """Making room and using it are two steps in that order: a rotation or an insertion first slides the keys (entries,
+    branches) of a node up by one and then writes the new key into the slot that became free.  Written the other way round the
+    new key is copied along by the slide and appears twice while the key that was in the slot is lost (in the store's index of
+    free pieces: one size vanishes, a later audit finds the keys out of order, a later request faults).  In btree.c no store
+    into `N->part[..].F` precedes, in the same block, a loop that slides `N->part[..].F` within the same node N."""
+    f = common.extract("btree.c", all_trees=True)
+    n = 0
+    for name, fn in sorted(f.funcs.items()):
+        if "body" not in fn or not fn.get("file", "").endswith("btree.c"):
+            continue
+        for blk in walk(fn["body"]):
+            if blk["k"] != "CompoundStmt":
+                continue
+            sts = [x for x in blk["c"] if x is not None]
+            for li, lp in enumerate(sts):
+                loops = [y for y in walk(lp) if y["k"] in ("ForStmt", "WhileStmt")] if lp["k"] in ("ForStmt", "WhileStmt", "IfStmt") else []
+                for L in loops:
+                    slid = set()
+                    for x in walk(L):
+                        if x["k"] == "BinaryOperator" and x["op"] == "=":
+                            d, s_ = _part_ref(x["c"][0]), _part_ref(x["c"][1])
+                            if d is not None and s_ is not None and d[0] == s_[0] and d[2] == s_[2]:
+                                slid.add((d[0], d[2]))
+                    if not slid:
+                        continue
+                    n += 1
+                    early = None
+                    for st in sts[:li]:
+                        if st["k"] in ("ForStmt", "WhileStmt"):
+                            continue
+                        for x in walk(st):
+                            if x["k"] == "BinaryOperator" and x["op"] == "=":
+                                d = _part_ref(x["c"][0])
+                                if d is not None and (d[0], d[2]) in slid and not any(y["k"] in ("ForStmt", "WhileStmt") and any(z is x for z in walk(y)) for y in walk(st)):
+                                    early = (x, d)
+                    key = "room-made-before-it-is-used:%s@%d" % (name, L["l"])
+                    if early is None:
+                        rep.ok(rule, key)
+                    else:
+                        x, d = early
+                        rep.violation(rule, "room-made-before-it-is-used:%s" % name, "btree.c:%d (%s)" % (x["l"], name),
+                                      "`%s` is stored before the loop at line %d slides the %s slots of node `%s`: the new value is "
+                                      "moved along by the slide and appears twice, the value that was in the slot is lost (a key of "
+                                      "the store's free-piece index vanishes and the separator is duplicated)"
+                                      % (render(x)[:50], L["l"], d[2], d[0]))
+    rep.floor("slide loops of btree.c", n, 6)
+
+
 def v6(rep):
     """B-tree node layout: a node with n keys has n+1 branches, key j sits between branch j and branch j+1.  When a rotation moves
     the *last* key of a node (index n-1) out of it, the branch that goes with it is the last branch (index n); when it moves the
@@ -818,6 +867,7 @@ def run(tier, only=None):
     v13(rep)
     v14(rep)
     v15(rep)
+    v16(rep)
     try:
         v5(rep)
     except AnalysisBroken as e:
